@@ -169,11 +169,19 @@ def run_query(q, bdir, inc=()):
     if rc is None or not os.path.exists(base + ".fp.smt2"):
         r.detail = "cbmc VC generation failed: " + ((out or "") + (err or ""))[-600:]
         return r
-    if "VERIFICATION SUCCESSFUL" in (out or ""):
-        # everything folded to true during symbolic execution: no VC left
-        r.status, r.backend, r.detail = "discharged", "cbmc-simplifier", "all assertions simplified to true"
-        return r
     src = open(base + ".fp.smt2").read()
+    if "(assert" not in src:
+        # every assertion was folded during symbolic execution (ground instance): no VC left.  Confirm with a
+        # plain CBMC run (bit-precise, trivial) so that "no assertion reached" cannot pass silently.
+        cmd2 = [c for c in cmd if c not in ("--cvc5", "--outfile", base + ".fp.smt2")]
+        rc2, out2, err2, s2 = core.run(cmd2, timeout=120, mem_gb=12)
+        r.seconds += s2
+        m = re.search(r"\*\* 0 of (\d+) failed", out2 or "")
+        if rc2 == 0 and m and int(m.group(1)) > 0:
+            r.status, r.backend, r.detail = "discharged", "cbmc-simplifier", "all %s assertions folded to true by symbolic execution" % m.group(1)
+        else:
+            r.detail = "empty VC but plain cbmc did not confirm: " + (out2 or "")[-300:]
+        return r
     try:
         forms, sw = fp2real.swap_text(src)
     except Undecided as e:
@@ -262,3 +270,29 @@ def record(report, r, pid):
     for c in r.cmds:
         report.cmd(re.sub(r'/\S*/\.build/\S*?/', '', c))
     report.add("%s.L2.%s" % (pid, q.name), q.function, "L2", r.backend or "smt", r.status, r.seconds, q.where, r.detail)
+
+
+def run_all(report, pid, qs, bdir, inc, workers=None):
+    """run queries, record every result; returns the list of non-discharged results"""
+    results = core.pmap(lambda q: run_query(q, bdir, inc), qs, workers=workers or max(2, core.NCPU // 2))
+    bad = []
+    for r in results:
+        record(report, r, pid)
+        if r.status != "discharged":
+            bad.append(r)
+    return bad
+
+
+def std_setup(report, pid):
+    """common Layer-2 set-up: build dir, rewritten kernel copies, standard assumption texts"""
+    bdir = core.builddir(pid)
+    fired = {}
+    nrows = validate_tables()
+    prep_su_inc(bdir, fired)
+    for k, v in fired.items():
+        report.rule(k, v)
+    report.rule("R3.table_rows_validated", nrows)
+    report.assume("machine arithmetic treated as mathematical (FloatingPoint(11,53) -> Real by tools/fp2real.py): rounding is not modelled")
+    report.assume("S2,S3,S5 are the positive roots of 2,3,5; sin/cos are uninterpreted functions constrained only by the axiom instances of DESIGN 4.2")
+    report.trust("CBMC 6.11 symbolic execution (--outfile), tools/fp2real.py theory swap, z3 4.8.12, cvc5 1.0")
+    return bdir, [bdir, os.path.join(core.VERIF, "spec")]
